@@ -31,11 +31,23 @@ void harness(void)
     for (unsigned i = 0; i < VF_N; i++) {
         unsigned char c = nondet_uchar();
 #ifdef VF_PREFIXLEN
+#ifdef VF_DOTS          /* fewer symbolic dot positions */
+        if (i < cut) c = ((VF_DOTS >= 1 && i == d0) || (VF_DOTS >= 2 && i == d1) || (VF_DOTS >= 3 && i == d2)) ? '.' : fill;
+#else
         if (i < cut) c = (i == d0 || i == d1 || i == d2) ? '.' : fill;
+#endif
 #endif
         if (i < n) { VF_ASSUME(c != 0); s[i] = c; }
     }
     s[n] = 0;
+#ifdef VF_MEMSAFE
+    /* C06: ANY NUL-terminated input through the public entry point: only the memory-safety / UB
+     * obligations CBMC generates are checked here, no functional claim */
+    (void) is_special_domain((const char *) s, (const char *) s + n);
+    VF_COVER(n >= 66, "long-input");
+    VF_END();
+    return;
+#endif
     VF_ASSUME(ref_domain(s, n, 0));          /* the library only asks about valid host names */
     VF_ASSUME(s[n - 1] != '.');              /* without root dot */
     int r = is_special_domain((const char *) s, (const char *) s + n);
